@@ -131,6 +131,10 @@ def run(tier, seed, replay=None):
             if g != "OK:" + C.hexs(d):
                 good = False
                 key = classify(nm, enc, comp, len(d), c["defcomp"], stored.get((i, nm))) or "builder-output-not-conformant"
+                if g == "FAIL:table" and key != "encrypted-key-from-full-path":
+                    # the sector offset table itself does not decrypt to a table under the published key (file key - 1):
+                    # not one of the listed deviations (those leave the table intact)
+                    key = "builder-offset-table-not-conformant"
                 res.failing.append((key, "reference reader does not get the content of %r (%d bytes, comp %s, enc %d) from the builder's archive: %s" % (nm, len(d), comp, enc, (g or "")[:40]), case))
         if got.get(C.hexs(b"never\\added.txt")) != "FAIL":
             res.failing.append(("absent-name", "reference reader resolves a name that was never added", case))
